@@ -47,6 +47,8 @@ def promoted(t):
 
 def common_int(a, b):
     """std::common_type of two integral types (usual arithmetic conversions, LP64)."""
+    if a == b:
+        return a          # std::common_type_t<T, T> is T itself (no promotion)
     a, b = promoted(a), promoted(b)
     if a == b:
         return a
@@ -107,11 +109,8 @@ def tree_hash():
                         h.update(fh.read())
                 except OSError:
                     pass
-    hh = os.path.join(HARNESS)
-    for f in sorted(os.listdir(hh)):
-        p = os.path.join(hh, f)
-        if os.path.isfile(p):
-            h.update(open(p, "rb").read())
+    for f in ("readout.hh", "genunits.hh"):   # the harness headers that are part of the PCH
+        h.update(open(os.path.join(HARNESS, f), "rb").read())
     return h.hexdigest()[:16]
 
 
@@ -207,6 +206,7 @@ def _pch_dir(cfg, flags=()):
     rc, out, err = sh(cmd)
     if rc != 0:
         raise InfraError("PCH build failed for %s %s:\n%s" % (cfg, flags, err[-3000:]))
+    open(os.path.join(d, "tree"), "w").write(th())
     open(ok, "w").write("ok")
     return d
 
@@ -250,19 +250,25 @@ def workdir(prop, tier):
 
 
 def clean_old_pch(keep_hash=None):
-    """Drop PCH dirs not belonging to the current tree hash (disk hygiene)."""
+    """Drop PCH dirs that belong to another tree hash and have not been touched for 45 minutes
+    (disk hygiene; recent ones may belong to a concurrently running check on a scratch tree)."""
     d = os.path.join(BUILD, "pch")
     if not os.path.isdir(d):
         return
-    stamp = os.path.join(d, "tree")
     cur = th()
-    old = open(stamp).read().strip() if os.path.exists(stamp) else None
-    if old != cur:
-        for x in os.listdir(d):
-            p = os.path.join(d, x)
-            if os.path.isdir(p):
-                shutil.rmtree(p, ignore_errors=True)
-        open(stamp, "w").write(cur)
+    now = time.time()
+    for x in os.listdir(d):
+        p = os.path.join(d, x)
+        if not os.path.isdir(p):
+            continue
+        tf = os.path.join(p, "tree")
+        try:
+            t = open(tf).read().strip()
+            age = now - os.path.getmtime(tf)
+        except OSError:
+            t, age = None, now - os.path.getmtime(p)
+        if t != cur and age > 2700:
+            shutil.rmtree(p, ignore_errors=True)
 
 
 # --------------------------------------------------------------------------------------------
@@ -441,6 +447,9 @@ class Run:
         for k, (fd, n, what) in sorted(self.known_hits.items()):
             print("KNOWN-FINDING: property=%s %s [%s] (%d hit%s; e.g. %s)" % (
                 self.prop, fd["what"], fd.get("id", ""), n, "" if n == 1 else "s", what))
+        with open(os.path.join(BUILD, "%s_%s_violations.txt" % (self.prop, self.tier)), "w") as f:
+            for key, what, replay in self.violations:
+                f.write("%s\t%s\n" % (key, what))
         seen = set()
         for key, what, replay in self.violations[:50]:
             if replay is None:
